@@ -1,0 +1,7 @@
+//go:build !verif
+
+package opcua
+
+// verifPoint marks a scheduling point between two critical sections. It does
+// nothing unless the package is built with the verif tag.
+func verifPoint(string) {}
